@@ -696,6 +696,67 @@ fn bytes_case<F: Flav>(ctx: &mut Ctx, b: &[u8]) {
     ctx.line(&format!("bfbytes\t{}\t{}\t{}\t{}", F::name(), hex(b), via_bytes, via_ssz));
 }
 
+/// Capacities near 2^32, 2^63 and 2^64.  No value of such a `BitVector` can be built and no `BitList` of
+/// this harness comes near the limit; what is observable is that every short byte string is refused (vector)
+/// or decoded as at small capacities (list), without a panic: arithmetic on the capacity itself (`N + 7`,
+/// `N as isize`, `N / 8 + 1`) shows here and nowhere else.
+fn huge_bytes_case<F: Flav>(ctx: &mut Ctx, b: &[u8], vector: bool) {
+    if !vector {
+        return bytes_case::<F>(ctx, b);
+    }
+    let show = |r: Caught<Result<F, ()>>| match r {
+        Caught::Val(Ok(_)) => "ok huge".to_string(),
+        Caught::Val(Err(_)) => "err".to_string(),
+        Caught::Panic => "panic".to_string(),
+    };
+    let via_bytes = show(catch(|| F::from_bytes_(b)));
+    let via_ssz = show(catch(|| F::from_ssz_bytes(b).map_err(|_| ())));
+    ctx.line(&format!("bfbytes\t{}\t{}\t{}\t{}", F::name(), hex(b), via_bytes, via_ssz));
+}
+
+fn huge_flavour<F: Flav + crate::model::Model>(ctx: &mut Ctx, vector: bool, count: usize) {
+    if !ctx.has("bfbytes") || !ctx.wants(&F::name(), "bitfield,hugecap") {
+        return;
+    }
+    ctx.line(&format!("# flavour {}", F::name()));
+    ctx.line(&crate::runner::obs_meta::<F>());
+    let fixed: Vec<Vec<u8>> = vec![
+        vec![], vec![0], vec![1], vec![2], vec![0x7f], vec![0x80], vec![0xff], vec![0, 0], vec![0xff, 0x01], vec![0, 1],
+        vec![0xff; 3], vec![0; 8], vec![0xff; 8], vec![0; 9], vec![0x55; 16], vec![0; 31], vec![0; 32], vec![0xff; 33],
+    ];
+    for b in &fixed {
+        huge_bytes_case::<F>(ctx, b, vector);
+    }
+    for _ in 0..std::cmp::max(8, count / 8) {
+        let mut r = ctx.rng.clone();
+        let b = gen_bf_bytes(&mut r, 24);
+        ctx.rng = r;
+        huge_bytes_case::<F>(ctx, &b, vector);
+    }
+}
+
+type UMaxM7 = typenum::UInt<typenum::UInt<typenum::UInt<typenum::U2305843009213693951, typenum::B0>, typenum::B0>, typenum::B1>;
+type UMaxM8 = typenum::UInt<typenum::UInt<typenum::UInt<typenum::U2305843009213693951, typenum::B0>, typenum::B0>, typenum::B0>;
+type UMax = typenum::UInt<typenum::UInt<typenum::UInt<typenum::U2305843009213693951, typenum::B1>, typenum::B1>, typenum::B1>;
+type UMaxM3 = typenum::UInt<typenum::UInt<typenum::UInt<typenum::U2305843009213693951, typenum::B1>, typenum::B0>, typenum::B0>;
+type U2p63p8 = typenum::Sum<typenum::U9223372036854775808, typenum::U8>;
+type U2p63p1 = typenum::Sum<typenum::U9223372036854775808, typenum::U1>;
+type U2p63p64 = typenum::Sum<typenum::U9223372036854775808, typenum::U64>;
+
+macro_rules! for_huge_caps {
+    ($ctx:expr, $count:expr) => {
+        for_huge_caps!(@one $ctx, $count, typenum::U4294967295, typenum::U4294967296, typenum::U34359738368,
+            typenum::U4611686018427387904, typenum::U9223372036854775807, typenum::U9223372036854775808,
+            U2p63p1, U2p63p8, U2p63p64, typenum::U10000000000000000000, UMaxM8, UMaxM7, UMaxM3, UMax);
+    };
+    (@one $ctx:expr, $count:expr, $($n:ty),*) => {
+        $(
+            huge_flavour::<BitVector<$n>>($ctx, true, $count);
+            huge_flavour::<BitList<$n>>($ctx, false, $count);
+        )*
+    };
+}
+
 fn resize_case<N: Unsigned + Clone, M: Unsigned + Clone>(ctx: &mut Ctx, r: &mut Rng) {
     let cap = N::to_usize();
     let len = r.below(cap + 1);
@@ -1070,6 +1131,7 @@ pub fn run(ctx: &mut Ctx, args: &[String]) {
     if ctx.wants("dyn", "bitfield") {
         per_flavour::<BitVectorDynamic>(ctx, 24, true, count);
     }
+    for_huge_caps!(ctx, count);
     if ctx.has("bfresize") && ctx.shard.0 == 0 {
         for _ in 0..std::cmp::max(1, count / 4) {
             let mut r = ctx.rng.clone();
